@@ -65,6 +65,8 @@ def gen_history(rng, exprs, cons, n):
 
 def run_history(cls, exprs, cons, hist):
     """-> list of canonical answers"""
+    if hist and hist[0] == "family":
+        return run_family_history(cls, exprs, cons, hist[1], lambda t, fn: fn())
     s = cls()
     out = []
     for op in hist:
@@ -95,6 +97,70 @@ def run_history(cls, exprs, cons, hist):
     return out
 
 
+def gen_family_history(rng, exprs, cons, n):
+    """operations over a family of solvers (a solver and its branches, all owned by ONE thread: the property quantifies over threads
+    working on their own solver objects; handing one solver object from thread to thread is outside it — FullFrontend keeps its Z3
+    solver in a thread-local slot and its pending-constraint queue per object, so a solver handed over can answer from a stale Z3
+    solver; observed, not a C20 violation)"""
+    h = []
+    nsolvers = 1
+    for _ in range(n):
+        r = rng.random()
+        s = rng.randrange(nsolvers)
+        t = rng.randrange(3)
+        if r < 0.25:
+            h.append((t, s, "add", rng.randrange(len(cons))))
+        elif r < 0.37 and nsolvers < 4:
+            h.append((t, s, "branch")); nsolvers += 1
+        elif r < 0.47:
+            h.append((t, s, rng.choice(["downsize", "simplify"])))
+        elif r < 0.62:
+            h.append((t, s, "eval", rng.randrange(len(exprs)), 64))
+        elif r < 0.74:
+            h.append((t, s, "solution", rng.randrange(len(exprs)), rng.randrange(16)))
+        elif r < 0.84:
+            h.append((t, s, "satisfiable"))
+        elif r < 0.92:
+            h.append((t, s, "max", rng.randrange(len(exprs))))
+        else:
+            h.append((t, s, "min", rng.randrange(len(exprs))))
+    return h
+
+
+def run_family_history(cls, exprs, cons, hist, call):
+    fam = [cls()]
+    out = []
+    for op in hist:
+        t, si, kind = op[0], op[1], op[2]
+        s = fam[si]
+
+        def do():
+            if kind == "add":
+                s.add(cons[op[3]]); return "ok"
+            if kind == "branch":
+                fam.append(s.branch()); return "ok"
+            if kind == "downsize":
+                s.downsize(); return "ok"
+            if kind == "simplify":
+                s.simplify(); return "ok"
+            if kind == "eval":
+                return tuple(sorted(s.eval(exprs[op[3]], op[4])))
+            if kind == "solution":
+                return s.solution(exprs[op[3]], op[4])
+            if kind == "satisfiable":
+                return s.satisfiable()
+            if kind == "max":
+                return s.max(exprs[op[3]])
+            return s.min(exprs[op[3]])
+        try:
+            out.append(call(t, do))
+        except claripy.errors.UnsatError:
+            out.append("UnsatError")
+        except claripy.errors.ClaripyError as ex:
+            out.append("ClaripyError:" + type(ex).__name__)
+    return out
+
+
 def run(ctx):
     ctx.cov["trusted_base"] += [
         "translator harness/translate_shared.py (module/class-level mutable bindings, backend-singleton containers, threading.local attributes) and the "
@@ -105,7 +171,7 @@ def run(ctx):
     ]
     ctx.cov["rule"] = ("cases = rounds of T threads (2..16), each thread running a random history of 12..40 solver operations on its own Solver/"
                        "SolverComposite/SolverCacheless over a pool of shared expressions; non-trivial = round with at least two threads issuing Z3 queries; "
-                       "distinct = (round, thread)")
+                       "distinct = (round, thread); half of the threads work on a family (a solver and its branches, with simplify/downsize)")
     tie_ok = True
     try:
         cells = ts.translate()
@@ -137,7 +203,8 @@ def run(ctx):
             T = rng.choice([2, 2, 3, 4, 8]) if not ctx.thorough() else rng.choice([2, 3, 4, 8, 12, 16])
             sys.setswitchinterval(rng.choice([1e-6, 1e-5, 1e-4, 5e-3]))
             exprs, cons = make_pool(rng, "r%d" % r)
-            hists = [gen_history(rng, exprs, cons, rng.choice([12, 24, 40])) for _ in range(T)]
+            hists = [gen_history(rng, exprs, cons, rng.choice([12, 24, 40])) if rng.random() < 0.5 else
+                     ("family", gen_family_history(rng, exprs, cons, rng.choice([12, 24, 40]))) for _ in range(T)]
             classes_ = [rng.choice([claripy.Solver, claripy.Solver, claripy.SolverComposite, claripy.SolverCacheless]) for _ in range(T)]
             results = [None] * T
             errors = [None] * T
@@ -172,13 +239,14 @@ def run(ctx):
                         ctx.notes.append("solo replay itself is not deterministic for %s at step %d" % (classes_[i].__name__, k))
                         continue
                     mismatches += 1
-                    ctx.violation("C20/answer-differs/%s/%s" % (classes_[i].__name__, hists[i][k][0]),
+                    flat = hists[i][1] if hists[i][0] == "family" else hists[i]
+                    ctx.violation("C20/answer-differs/%s/%s" % (classes_[i].__name__, flat[k][2] if hists[i][0] == "family" else flat[k][0]),
                                   "with %d threads, thread %d (%s) step %d %r answered %r; alone it answers %r" % (
-                                      T, i, classes_[i].__name__, k, hists[i][k], results[i][k], solo[k]),
+                                      T, i, classes_[i].__name__, k, flat[k], results[i][k], solo[k]),
                                   {"round": r, "threads": T, "class": classes_[i].__name__, "history": hists[i], "step": k,
                                    "concurrent": repr(results[i][k]), "solo": repr(solo[k])})
             if r == 0:
-                ctx.sample({"threads": T, "history": [list(o) for o in hists[0][:10]], "answers": [repr(a) for a in (results[0] or [])[:10]]})
+                ctx.sample({"threads": T, "history": [list(o) if isinstance(o, tuple) else o for o in (hists[0][1] if hists[0][0] == "family" else hists[0])[:10]], "answers": [repr(a) for a in (results[0] or [])[:10]]})
     finally:
         sys.setswitchinterval(old_interval)
     # readOnlyAfterImport cells unchanged by the workload
